@@ -58,9 +58,13 @@ def _fake_uniform(shape, minval=0, maxval=None, dtype=tf.float32, seed=None, nam
 
 
 def install_uniform():
+  """Replace tf.random.uniform in every module object qkeras reaches it through
+  (tensorflow and tensorflow.compat.v2 expose distinct `random` modules)."""
   if "uniform" in STUBS:
     return
+  import tensorflow.compat.v2 as tfv2
   tf.random.uniform = _fake_uniform
+  tfv2.random.uniform = _fake_uniform
   STUBS.append("uniform")
 
 
